@@ -85,10 +85,23 @@ def finish(pid, tier, seed, goals, meta, results, ok_canary, canary_info, t0):
             lines.append('VIOLATION property=%s replay=%s' % (pid, path))
         else:
             lines.append('VIOLATION property=%s replay=%s no-failing-input-found' % (pid, path))
+    # thorough tier: witness drivers run on the real code; one that observes a violation of the property statement is a failing input
+    witness_errors = []
+    for w in meta.get('witness_replays') or []:
+        if w['reproduced'] is True:
+            os.makedirs(rdir, exist_ok=True)
+            path = os.path.join(rdir, 'witness_' + safe(os.path.basename(w['driver'])[:-4]) + '.json')
+            json.dump({'property': pid, 'obligation': 'witness:' + w['driver'], 'engine': 'replay', 'clause': 'the property statement, on the inputs of the driver (sanitizer build of the working tree)',
+                       'scenario': {'driver': w['driver'], 'args': []}, 'reproduced': True, 'observed': '\n'.join(w['violating_observations']) or w['tail']}, open(path, 'w'), indent=1)
+            violations += 1
+            lines.append('VIOLATION property=%s replay=%s' % (pid, path))
+        elif w['reproduced'] is None:
+            witness_errors.append('witness driver %s did not run to a verdict: %s' % (w['driver'], w['tail'][-200:].replace('\n', ' ')))
     status = 0
     if violations: status = 1
     infra = []
     if errors: infra += errors
+    infra += witness_errors
     if undecided: infra += ['undecided obligation %s (%s)' % (o['id'], o['text'][:80]) for o in undecided]
     if vac: infra += ['vacuous precondition set: %s' % v for v in vac]
     if not ok_canary: infra.append('canary obligations were not decided as expected: %s' % canary_info)
@@ -118,6 +131,8 @@ def finish(pid, tier, seed, goals, meta, results, ok_canary, canary_info, t0):
             'failed': [o['id'] for o in failed],
             'infrastructure_problems': infra,
             'known_findings': [k.get('finding_id') for k in known],
+            'witness_replays': meta.get('witness_replays'),
+            'witness_replays_note': 'thorough tier only: executions of the real code (ASan + UBSan build of the working tree) on inputs derived from the contract clauses and the property statement; testing, not proof, and not counted among the obligations',
             'seeded_self_test': meta.get('seeded_self_test'),
             'undetected_seeded_changes': [x['seeded_change'] for x in (meta.get('seeded_self_test') or []) if x['verdict'] != 'detected'],
             'a7_validation': meta.get('a7_validation'),
